@@ -294,18 +294,30 @@ pub fn burst_case(rng: &mut Rng) -> Case {
     let period = 40.0 + 400.0 * rng.f64();
     let noise = full * 0.004 * rng.f64();
     let mut samples = vec![0i32; len];
+    // base: a smooth sine (2 of 3) or (near-)digital silence (1 of 3: all zero, or rare +-1)
+    let silent_base = rng.chance(1, 3);
     for (t, x) in samples.iter_mut().enumerate() {
-        *x = (amp * (6.283 * t as f64 / period).sin() + noise * rng.gauss()).round().clamp(gen::smin(bps) as f64, full) as i32;
+        *x = if silent_base {
+            if rng.chance(1, 40) { rng.range(-1, 1) as i32 } else { 0 }
+        } else {
+            (amp * (6.283 * t as f64 / period).sin() + noise * rng.gauss()).round().clamp(gen::smin(bps) as f64, full) as i32
+        };
     }
     for _ in 0..1 + rng.usize_below(2) {
-        let blen = *rng.pick(&[16usize, 32, 64, 64, 128]);
+        let blen = *rng.pick(&[1usize, 16, 32, 64, 64, 128, 200]);
         let start = rng.usize_below(len.saturating_sub(blen).max(1));
-        let kind = rng.usize_below(3);
+        // on a silent base the burst is low-level (a few LSBs) or a single moderate click; on a
+        // sine it is full scale near the Nyquist frequency
+        let kind = if silent_base { 3 + rng.usize_below(2) } else { rng.usize_below(3) };
+        let level = 1 + rng.usize_below(12) as i64;
+        let click = rng.range(30, (len as i64 / 2).max(31)).min(gen::smax(bps) as i64);
         for t in start..(start + blen).min(len) {
             samples[t] = match kind {
                 0 => if t % 2 == 0 { gen::smax(bps) } else { gen::smin(bps) },
                 1 => if (t / 2) % 2 == 0 { gen::smax(bps) } else { gen::smin(bps) },
-                _ => rng.range(gen::smin(bps) as i64, gen::smax(bps) as i64) as i32,
+                2 => rng.range(gen::smin(bps) as i64, gen::smax(bps) as i64) as i32,
+                3 => rng.range(-level, level) as i32,
+                _ => if t == start { click as i32 } else { samples[t] },
             };
         }
     }
@@ -318,7 +330,7 @@ pub fn burst_case(rng: &mut Rng) -> Case {
         cfg.subframe_coding.fixed.order_sel = config::OrderSel::BitCount;
     }
     cfg.block_size = block;
-    Case { audio: Arc::new(Audio { channels: 1, bps, rate: 44100, samples, recipe: "sine+nyquist_burst".into() }), cfg, block, mode: FillMode::Int, hint: true }
+    Case { audio: Arc::new(Audio { channels: 1, bps, rate: 44100, samples, recipe: if silent_base { "near_silence+low_burst_or_click".into() } else { "sine+nyquist_burst".into() } }), cfg, block, mode: FillMode::Int, hint: true }
 }
 
 pub fn par_case(rng: &mut Rng, max_samples: usize) -> Case {
@@ -522,7 +534,7 @@ pub fn run_c03(ctx: &Ctx) -> i32 {
         let mut rng = Rng::for_case(ctx.seed, "C03.variants", idx);
         let mut case = gen_case(&mut rng, &Limits { max_samples: 8000, max_blocks: 8, max_block_size: 1024, ..Limits::default() });
         let mut infos = vec![];
-        for (mt, mode, hint) in [(false, FillMode::Int, false), (false, FillMode::Bytes, true), (true, FillMode::Int, true), (true, FillMode::Bytes, false)] {
+        for (mt, mode, hint) in [(false, FillMode::Int, false), (false, FillMode::Bytes, true), (true, FillMode::Int, true), (true, FillMode::Bytes, false), (false, FillMode::BytesShort, false), (true, FillMode::IntShort, idx % 2 == 0), (true, FillMode::BytesShort, false)] {
             case.cfg.multithread = mt;
             case.cfg.workers = NonZeroUsize::new(1 + rng.usize_below(4));
             case.mode = mode;
@@ -594,6 +606,35 @@ pub fn run_c03(ctx: &Ctx) -> i32 {
             }
             Ok(Err(e)) => out.violation("C03|giant|encode-error", format!("{e}"), rp()),
             Err(p) => out.violation(format!("C03|giant|encode-panic|{}", p.site()), p.short(), rp()),
+        }
+    });
+    // a source that stalls (a capture device, a pipe whose writer pauses): the feeder blocks in
+    // read_samples for 1.3 s before a later block while helper threads sit idle; totals and MD5
+    // must not depend on how long the source took
+    let nstall = if cfg!(miri) { 0 } else { ctx.tier.pick(2, 8) };
+    run_cases(ctx, "stall", nstall, &mut out, |idx, out| {
+        let mut rng = Rng::for_case(ctx.seed, "C03.stall", idx);
+        let mut case = gen_case(&mut rng, &Limits { max_samples: 4000, max_blocks: 8, max_block_size: 256, ..Limits::default() });
+        case.cfg.multithread = true;
+        case.cfg.workers = NonZeroUsize::new(2 + rng.usize_below(3));
+        case.hint = idx % 2 == 0;
+        let Ok(v) = enc::verified(&case.cfg) else { return };
+        let mut src = TestSource::new(Arc::clone(&case.audio), case.mode, case.hint);
+        let nreads = (case.audio.frames() + case.block - 1) / case.block.max(1);
+        src.stall = Some((nreads / 2 + 1, 1300));
+        match enc::encode_stream(&v, &mut src, case.block) {
+            Ok(stream) => match enc::to_bytes(&stream) {
+                Ok(bytes) => {
+                    let rep = refdec::decode_stream(&bytes);
+                    let obs = Observed { stream, bytes, rep, delivered: src.delivered, reads: src.reads };
+                    out.evaluations += 1;
+                    out.count("sub_stall");
+                    out.distinct.insert(case.key() ^ 0x57A11);
+                    oracle_c03(ctx, "stall", idx, &case, &obs, out);
+                }
+                Err(e) => report_obs_err(ctx, "stall", idx, &case, &ObsErr::Ser(e, stream_placeholder()), out),
+            },
+            Err(e) => report_obs_err(ctx, "stall", idx, &case, &ObsErr::Enc(e), out),
         }
     });
     // the 36-bit total-samples field on its own (every tier): totals around 2^32 and up to 2^36-1
@@ -756,6 +797,7 @@ pub fn run_c09(ctx: &Ctx) -> i32 {
         Sub { name: "rice", n: n(300, 10_000), gen: Box::new(|r| rice_case(r, 20_000)) },
         Sub { name: "mix", n: n(800, 40_000), gen: Box::new(|r| gen_case(r, &lim(20_000))) },
         Sub { name: "lpc64", n: n(150, 5_000), gen: Box::new(|r| lpc64_case(r, 9000)) },
+        short_sub(ctx),
     ];
     drive(ctx, subs, &[oracle_c09], &mut out, has_frames);
     // 32-bit wrap hunters: with prc.max_parameter = 0 and a fixed predictor of order 0 the Rice
@@ -811,6 +853,82 @@ pub fn run_c09(ctx: &Ctx) -> i32 {
             }
             Err(e) => report_obs_err(ctx, "wrap32", idx, &case, &e, out),
         }
+    });
+    // break-even seeking: for a fixed noise shape the amplitude at which the encoder switches from
+    // a predicted subframe to verbatim is found by bisection, and the frame bound is then checked
+    // on a fine amplitude grid around that point - the narrow band in which any slack in the size
+    // comparison (an under-counted candidate, a bound taken from the wrong quantity) shows
+    let nb = ctx.tier.pick(60, 2000);
+    run_cases(ctx, "breakeven", nb, &mut out, |idx, out| {
+        use flacenc::component::{BitRepr, SubFrame};
+        use flacenc::source::Fill;
+        let mut rng = Rng::for_case(ctx.seed, "C09.breakeven", idx);
+        let bps = *rng.pick(&[16usize, 16, 24, 20, 12]);
+        let channels = *rng.pick(&[1usize, 1, 2]);
+        let n = *rng.pick(&[4096usize, 1024, 4096, 576, 192]);
+        let colour = *rng.pick(&[0.0f64, 0.0, 0.5, -0.5, 0.9]);
+        let mut shape = vec![0f64; n * channels];
+        let mut prev = vec![0f64; channels];
+        for t in 0..n {
+            for c in 0..channels {
+                let e = 2.0 * rng.f64() - 1.0;
+                let v = colour * prev[c] + (1.0 - colour.abs()) * e;
+                prev[c] = v;
+                shape[t * channels + c] = v;
+            }
+        }
+        let mut cfg = config::Encoder::default();
+        cfg.multithread = false;
+        cfg.block_size = n;
+        match idx % 4 {
+            0 => {}
+            1 => {
+                cfg.subframe_coding.qlpc.lpc_order = 24;
+            }
+            2 => cfg.subframe_coding.use_fixed = false,
+            _ => cfg.subframe_coding.use_lpc = false,
+        }
+        let Ok(v) = enc::verified(&cfg) else { return };
+        let full = gen::smax(bps) as f64;
+        let Ok(si) = flacenc::component::StreamInfo::new(44100, channels, bps) else { return };
+        let Ok(mut fb) = flacenc::source::FrameBuf::with_size(channels, n) else { return };
+        // returns (frame bytes, header bits, any predicted subframe?)
+        let mut probe = |a: f64| -> Option<(usize, usize, bool)> {
+            let samples: Vec<i32> = shape.iter().map(|x| (a * full * x).round().clamp(gen::smin(bps) as f64, full) as i32).collect();
+            fb.fill_interleaved(&samples).ok()?;
+            let f = crate::common::catch(|| flacenc::encode_fixed_size_frame(&v, &fb, 0, &si)).ok()?.ok()?;
+            let predicted = (0..f.subframe_count()).any(|c| matches!(f.subframe(c), Some(SubFrame::FixedLpc(_) | SubFrame::Lpc(_))));
+            let bytes = enc::to_bytes(&f).ok()?.len();
+            Some((bytes, f.header().count_bits(), predicted))
+        };
+        let (mut lo, mut hi) = (0.05f64, 1.0f64);
+        let (Some(pl), Some(ph)) = (probe(lo), probe(hi)) else { return };
+        if !pl.2 || ph.2 {
+            // no switch inside the range (always verbatim or never): still check the two ends
+            out.count("breakeven_no_switch_in_range");
+        } else {
+            for _ in 0..14 {
+                let mid = 0.5 * (lo + hi);
+                match probe(mid) {
+                    Some(p) if p.2 => lo = mid,
+                    Some(_) => hi = mid,
+                    None => break,
+                }
+            }
+        }
+        let centre = 0.5 * (lo + hi);
+        for k in 0..32 {
+            let a = (centre * (0.985 + 0.03 * k as f64 / 31.0)).min(1.0);
+            let Some((bytes, hbits, _)) = probe(a) else { continue };
+            out.evaluations += 1;
+            let bound = frame_bound_bytes(hbits, channels, bps, n);
+            out.max("breakeven_len_permille_of_bound", (bytes * 1000 / bound) as u64);
+            if bytes > bound {
+                out.violation("C09|frame-larger-than-verbatim|breakeven", format!("amplitude {a:.5} of full scale ({channels} ch x {bps} bit, n={n}, colour {colour}, config variant {}): frame of {bytes} bytes > bound {bound}", idx % 4), json!({"monitor": "C09", "sub": "breakeven", "index": idx, "seed": ctx.seed, "tier": ctx.tier.name(), "case": {"bps": bps, "channels": channels, "n": n, "colour": colour, "amplitude": a, "config_variant": idx % 4}}));
+                break;
+            }
+        }
+        out.distinct.insert(crate::prng::hash_str(&format!("{idx}/{bps}/{channels}/{n}/{colour}")));
     });
     // frame-level first: count_bits() of hostile frames without serialising anything
     let nf = ctx.tier.pick(4500, 240_000);
@@ -949,6 +1067,44 @@ pub fn run_c15(ctx: &Ctx) -> i32 {
             Err(e) => report_obs_err(ctx, "metadata", idx, &case, &ObsErr::Enc(e), out),
         }
     });
+    // every block length 1..=32767 as a (final) frame: DC block through the frame-level entry
+    // point, serialised, parsed alone, verified, re-serialised, decoded
+    run_cases(ctx, "blocklen", 32_767, &mut out, |idx, out| {
+        use flacenc::component::Decode;
+        use flacenc::error::Verify;
+        let n = idx as usize + 1;
+        let r = crate::common::catch(|| -> Result<(), String> {
+            let cfg = config::Encoder::default();
+            let v = enc::verified(&cfg)?;
+            let si = flacenc::component::StreamInfo::new(44100, 1, 16).map_err(|e| format!("{e}"))?;
+            let mut fb = flacenc::source::FrameBuf::with_size(1, n.max(32)).map_err(|e| format!("{e}"))?;
+            let data = vec![(n % 97) as i32 - 48; n];
+            flacenc::source::Fill::fill_interleaved(&mut fb, &data).map_err(|e| format!("{e}"))?;
+            let f = flacenc::encode_fixed_size_frame(&v, &fb, n % 300, &si).map_err(|e| format!("encode: {e}"))?;
+            let bytes = enc::to_bytes(&f).map_err(|e| format!("{e:?}"))?;
+            type NomErr<'a> = nom::error::Error<&'a [u8]>;
+            let mut p = flacenc::component::parser::frame::<NomErr<'_>>(&si, true);
+            let (rest, f2) = p(&bytes).map_err(|e| format!("parser::frame rejects the frame: {}", format!("{e:?}").chars().take(100).collect::<String>()))?;
+            if !rest.is_empty() {
+                return Err(format!("{} bytes left unconsumed", rest.len()));
+            }
+            f2.verify().map_err(|e| format!("parsed frame does not verify: {e}"))?;
+            if enc::to_bytes(&f2).map_err(|e| format!("{e:?}"))? != bytes {
+                return Err("re-serialised frame differs".into());
+            }
+            if f2.decode() != data {
+                return Err("Decode of the parsed frame differs from the input".into());
+            }
+            Ok(())
+        });
+        out.evaluations += 1;
+        out.distinct.insert(0xB10C_0000 + idx);
+        match r {
+            Ok(Ok(())) => {}
+            Ok(Err(e)) => out.violation(format!("C15|blocklen|{}", e.split(':').next().unwrap_or("?").chars().take(40).collect::<String>()), format!("block length {n}: {e}"), json!({"monitor": "C15", "sub": "blocklen", "index": idx, "seed": ctx.seed, "tier": ctx.tier.name(), "case": {"block_length": n}})),
+            Err(p) => out.violation(format!("C15|blocklen-panic|{}", p.site()), p.short(), json!({"monitor": "C15", "sub": "blocklen", "index": idx, "seed": ctx.seed, "tier": ctx.tier.name(), "case": {"block_length": n}})),
+        }
+    });
     // single frames at every length class of the coded frame number (and random numbers): encode
     // through the frame-level entry point, serialise, parse alone, verify, re-serialise, decode
     let mut numbers: Vec<u64> = vec![0, 1];
@@ -1010,7 +1166,7 @@ pub fn run_c15(ctx: &Ctx) -> i32 {
     });
     let fin = Finish {
         level: "exploration",
-        rule: "for every emitted stream: parser::stream consumes all bytes, the tree verifies, re-serialises to identical bytes and Decode returns the input; the first frames are also parsed alone with parser::frame; the first frames' subframes are parsed alone with parser::subframe at their channel's width; 'metadata' adds 0-3 unknown metadata blocks (lengths 0..1000, one in eight at 65535..300000 bytes) and includes the empty stream; 'framenum' round-trips single frames at every length class of the coded frame number (2^7, 2^11, 2^16, 2^21, 2^26, 2^31 each -2..+2) and random 1..31-bit numbers; distinct by case hash",
+        rule: "for every emitted stream: parser::stream consumes all bytes, the tree verifies, re-serialises to identical bytes and Decode returns the input; the first frames are also parsed alone with parser::frame; the first frames' subframes are parsed alone with parser::subframe at their channel's width; 'metadata' adds 0-3 unknown metadata blocks (lengths 0..1000, one in eight at 65535..300000 bytes) and includes the empty stream; 'blocklen' round-trips a frame of every block length 1..=32767; 'framenum' round-trips single frames at every length class of the coded frame number (2^7, 2^11, 2^16, 2^21, 2^26, 2^31 each -2..+2) and random 1..31-bit numbers; distinct by case hash",
         assumptions: vec![],
         exhaustive: None,
         floors: vec![],
